@@ -239,7 +239,19 @@ func addIntrinsics(P *Program) {
 		i.fireTimers()
 		return nil
 	})
-	reg("Settle", func(i *interpreter, fr *frame, fn *ssa.Function, args []value) value { return nil })
+	// Settle: background goroutines get to run until none of them can make progress any more
+	reg("Settle", func(i *interpreter, fr *frame, fn *ssa.Function, args []value) value {
+		me := i.cur
+		i.block(func() bool {
+			for _, t := range i.threads {
+				if t != me && !t.done && !t.harness && t.id != 0 && t.runnable() {
+					return false
+				}
+			}
+			return true
+		}, "vsym.Settle")
+		return nil
+	})
 	reg("Symbolic", func(i *interpreter, fr *frame, fn *ssa.Function, args []value) value { return true })
 	// Try runs f and reports whether it panicked (target panics only).
 	reg("Try", func(i *interpreter, fr *frame, fn *ssa.Function, args []value) (res value) {
